@@ -156,6 +156,9 @@ def parse_file(path, want=None):
                     for a in split_top(m.group(2)):
                         if a:
                             am = re.match(r"_(\d+): (.+)$", a)
+                            if am is None:      # an argument type the splitter cannot take apart (`impl Fn(&T) -> U + 'a`): keep the text
+                                args.append((len(args) + 1, a))
+                                continue
                             args.append((int(am.group(1)), am.group(2)))
                     cur = Func(name, args, m.group(3))
                     cur.locals[0] = m.group(3)
